@@ -1,7 +1,7 @@
 """C06 Signing-key derivation equals the SigV4 HMAC chain (structure necessary for equality)."""
 from lib import *
 from registry import Module
-from linear import Lin, lf_add, lf_const, lf_str, entails, lf_norm
+from linear import Lin, lf_add, lf_const, lf_str, entails, lf_norm, ineq
 
 M = Module(
     "C06",
@@ -258,7 +258,21 @@ def r3(ctx):
                 conds.append((c["op"], lf_str(lin.form(c["l"]) or {}), lf_str(lin.form(c["r"]) or {}), truth))
         okc = sorted((op, l, r) for op, l, r, t in conds if t)
         exp1 = ("Gt", "len(p%d)" % raw, "-4 + M")
-        if not any((op, l, r) == exp1 or (op == "Gt" and l == "4 + len(p%d)" % raw and r == "M") for op, l, r in okc):
+        # ... or any comparison equivalent to it given what is known by construction (`capacity = M.checked_sub(4)?`:
+        # `!(len <= capacity)` is `len > M - 4`)
+        target = {"M": 1, "len(p%d)" % raw: -1, 1: -3}  # M - 4 - len + 1 <= 0
+        equiv = False
+        for a_, s_, c_, truth_ in guard_conditions(b, e[0]):
+            if c_["kind"] != "binop" or truth_ is None:
+                continue
+            l_, r_ = lin.form(c_["l"]), lin.form(c_["r"])
+            if l_ is None or r_ is None:
+                continue
+            F_ = ineq(c_["op"], l_, r_, truth_)
+            ck = lin.checked_facts()
+            if F_ and entails(F_ + ck, target) and all(entails([target] + ck, f_) for f_ in F_):
+                equiv = True
+        if not equiv and not any((op, l, r) == exp1 or (op == "Gt" and l == "4 + len(p%d)" % raw and r == "M") for op, l, r in okc):
             yield VIOL("C06-R3", "from_str/capacity-threshold", "the rejecting comparison is not `len > M - 4` (found %s): secrets up to the capacity must be accepted" % conds, where=b.span_of_block(e[0]))
         else:
             yield PASS("C06-R3", "from_str/capacity-check", "Err(KeyTooLongError) iff M < 4 or len > M - 4; M - 4 evaluated only when M >= 4", [site(b, e[0], "Err")])
